@@ -19,7 +19,7 @@ SParam expectedParam(const ParamSpec &sp) {
     return p;
 }
 struct L09 : Listener {
-    CaseResult &r; std::vector<SGroup> pre; size_t replaced = 0, multi = 0, setRefused = 0, created = 0, locks = 0, appended = 0;
+    CaseResult &r; std::vector<SGroup> pre; size_t replaced = 0, multi = 0, setRefused = 0, created = 0, locks = 0, appended = 0, selfHanded = 0;
     explicit L09(CaseResult &rr) : r(rr) {}
     void before(Interp &in, const Op &, size_t) override { pre = takeSnap(in.o()).groups; }
     void fail(size_t i, const Op &op, const std::string &m) { r.fail("op " + std::to_string(i) + " (" + op.code + "): " + m); stop = true; }
@@ -41,6 +41,22 @@ struct L09 : Listener {
             ++replaced;
             std::string d = firstDiff(groupsText(want), groupsText(post));
             if (!d.empty()) fail(i, op, "a parameter re-set on a copy with the sign of its zeros flipped does not hold the new values: " + d);
+            return;
+        }
+        if (k == "selfparam") {
+            // expected: the destination group (created if absent) holds a copy of the source parameter as it was before the call,
+            // replaced in place if a parameter of exactly that name was there, appended otherwise; nothing else changes
+            if (o.threw) { fail(i, op, "handing a parameter of the object back to it (" + o.note + ") threw " + o.cls + ": " + o.what); return; }
+            const std::string dst = o.note;
+            SParam copy = in.lastSelfParam;
+            std::vector<SGroup> post = takeSnap(in.o()).groups, want = pre;
+            SGroup *g = nullptr; for (auto &G : want) if (G.name == dst) { g = &G; break; }
+            if (!g) { SGroup ng; ng.name = dst; want.push_back(ng); g = &want.back(); ++created; }
+            bool rep = false; for (auto &P : g->params) if (P.name == copy.name) { P = copy; rep = true; break; }
+            if (rep) ++replaced; else { g->params.push_back(copy); ++appended; }
+            ++selfHanded;
+            std::string d = firstDiff(groupsText(want), groupsText(post));
+            if (!d.empty()) fail(i, op, "a parameter of the object handed back to it for group " + q(dst) + " was not stored as it was: " + d);
             return;
         }
         if (k != "param" && k != "lockg" && k != "unlockg") return;
@@ -107,7 +123,7 @@ CaseResult runC09(const Case &c, RunCtx &ctx) {
     in.run(c);
     r.nontrivial = L.replaced || L.multi || L.setRefused;
     if (L.replaced) r.tags.insert("replace-in-place"); if (L.appended) r.tags.insert("append"); if (L.created) r.tags.insert("group-created");
-    if (L.multi) r.tags.insert("dims>=3"); if (L.setRefused) r.tags.insert("set-refused"); if (L.locks) r.tags.insert("lock-toggle");
+    if (L.selfHanded) r.tags.insert("own-parameter-handed-back"); if (L.multi) r.tags.insert("dims>=3"); if (L.setRefused) r.tags.insert("set-refused"); if (L.locks) r.tags.insert("lock-toggle");
     r.counters["replaced"] = static_cast<long long>(L.replaced); r.counters["appended"] = static_cast<long long>(L.appended);
     r.counters["set_refused"] = static_cast<long long>(L.setRefused); r.counters["groups_created"] = static_cast<long long>(L.created);
     return r;
